@@ -397,9 +397,11 @@ func heapInv(term string, s Sort, alloc string, guarded bool) string {
 	case "(Array Int Slice)":
 		// row 0 belongs to nil, which is never written (a write through nil panics: safe:nil obligations);
 		// giving it the nil slice makes "x.f.g[*]" denote nothing when x.f is nil
-		return fmt.Sprintf("(and (forall ((r!h Int)) (! %s :pattern ((select %s r!h)))) (= (s-arr (select %s 0)) 0))", g(fmt.Sprintf("(and (wf-slice (select %s r!h)) (<= (s-arr (select %s r!h)) %s))", term, term, alloc)), term, term)
+		// well-formedness of a stored header is a type invariant (all rows); "allocated before the heap
+		// value was introduced" only makes sense for rows that existed then
+		return fmt.Sprintf("(and (forall ((r!h Int)) (! (and (wf-slice (select %s r!h)) %s) :pattern ((select %s r!h)))) (= (s-arr (select %s 0)) 0))", term, g(fmt.Sprintf("(<= (s-arr (select %s r!h)) %s)", term, alloc)), term, term)
 	case "(Array Int (Array Int Slice))":
-		return fmt.Sprintf("(forall ((r!h Int) (j!h Int)) (! %s :pattern ((select (select %s r!h) j!h))))", g(fmt.Sprintf("(and (wf-slice (select (select %s r!h) j!h)) (<= (s-arr (select (select %s r!h) j!h)) %s))", term, term, alloc)), term)
+		return fmt.Sprintf("(forall ((r!h Int) (j!h Int)) (! (and (wf-slice (select (select %s r!h) j!h)) %s) :pattern ((select (select %s r!h) j!h))))", term, g(fmt.Sprintf("(<= (s-arr (select (select %s r!h) j!h)) %s)", term, alloc)), term)
 	}
 	return ""
 }
@@ -409,10 +411,11 @@ func ptrElemInv(comp, term string, s Sort, alloc string, guarded bool) string {
 	if !strings.HasPrefix(comp, "E:*") || s != "(Array Int (Array Int Int))" {
 		return ""
 	}
-	body := fmt.Sprintf("(and (<= 0 (select (select %s r!h) j!h)) (<= (select (select %s r!h) j!h) %s))", term, term, alloc)
+	upper := fmt.Sprintf("(<= (select (select %s r!h) j!h) %s)", term, alloc)
 	if guarded {
-		body = fmt.Sprintf("(=> (<= r!h %s) %s)", alloc, body)
+		upper = fmt.Sprintf("(=> (<= r!h %s) %s)", alloc, upper)
 	}
+	body := fmt.Sprintf("(and (<= 0 (select (select %s r!h) j!h)) %s)", term, upper)
 	return fmt.Sprintf("(forall ((r!h Int) (j!h Int)) (! %s :pattern ((select (select %s r!h) j!h))))", body, term)
 }
 
